@@ -120,6 +120,49 @@ func genFileSpec(r *rand.Rand, id string) *fileSpec {
 			}
 		}
 	}
+	// in many of the specs that use character literals one of them is not ASCII (its number is the character's code, not a byte of its
+	// encoding); chosen by the spec's name, so the random stream of the other choices stays as it was
+	{
+		h := idHash(id)
+		from := ""
+		lits := map[string]bool{}
+		for _, ru := range c.Rules {
+			for _, x := range ru.Rhs {
+				if isLitSym(x) && len(x) == 3 && x[1] > 32 && x[1] < 127 {
+					lits[x] = true
+					if from == "" {
+						from = x
+					}
+				}
+			}
+		}
+		// specs with several literals keep an ASCII one beside it; of those with one literal, every other one
+		if from != "" && (len(lits) >= 2 || h%2 == 0) {
+			to := "'" + []string{"é", "×", "λ", "÷", "è"}[(h/3)%5] + "'"
+			rn := func(x string) string {
+				if x == from {
+					return to
+				}
+				return x
+			}
+			for i := range c.Tokens {
+				if c.Tokens[i].Lit && c.Tokens[i].Sym() == from {
+					c.Tokens[i].Name = to[1 : len(to)-1]
+				}
+			}
+			for i := range c.Rules {
+				for j := range c.Rules[i].Rhs {
+					c.Rules[i].Rhs[j] = rn(c.Rules[i].Rhs[j])
+				}
+				c.Rules[i].Prec = rn(c.Rules[i].Prec)
+			}
+			for i := range c.Prec {
+				for j := range c.Prec[i].Syms {
+					c.Prec[i].Syms[j] = rn(c.Prec[i].Syms[j])
+				}
+			}
+		}
+	}
 	// tags and explicit numbers
 	used := map[int]bool{}
 	for i := range c.Tokens {
@@ -371,6 +414,10 @@ func (fs *fileSpec) want() fileView {
 				ft.Num, ft.Tag = d.Num, d.Tag
 			}
 		}
+		if isLitSym(t) && ft.Num == 0 {
+			// a character literal declares its own number: the code of the character
+			ft.Num = int([]rune(t[1 : len(t)-1])[0])
+		}
 		if p, ok := tp[t]; ok {
 			ft.Level, ft.Assoc = p.Level, p.Assoc
 		}
@@ -429,7 +476,7 @@ func gotView(w *parser.Walker, explicit map[string]bool) fileView {
 			continue
 		}
 		ft := fileTok{Name: asciiName(name), Tag: sy.Tag}
-		if explicit[name] {
+		if explicit[name] || isLitSym(name) {
 			ft.Num = sy.Value
 		}
 		if sy.Prec > 0 {
